@@ -80,7 +80,9 @@ func normText(s string, m Mode, raw bool) string {
 	if raw {
 		return s
 	}
-	f := strings.Fields(s)
+	// HTML whitespace only (space, tab, LF, FF, CR): a no-break space and other Unicode spaces
+	// are content
+	f := strings.FieldsFunc(s, func(r rune) bool { return r == ' ' || r == '\t' || r == '\n' || r == '\f' || r == '\r' })
 	if m == Strip {
 		return strings.Join(f, "")
 	}
